@@ -1,15 +1,22 @@
 import TsRsVerif.Model.Export
 import TsRsVerif.Lemmas.MergeLemmas
+import TsRsVerif.Lemmas.MergeText
+import TsRsVerif.Lemmas.ImportLine
 /-!
 # C05 — several types in one file: order-independent, idempotent, lossless merge
 
 `Merge.merge` is `render ∘ (import map + insertion loop) ∘ parse`, as the Rust function is.
 The theorems below are about the middle part — the very functions `merge` is composed of
 (`insertLoop`, `insertByName`) — and about `exportAndMerge` over the file-system/registry model.
-What is NOT proven in Lean (stated partial, checked on every case of every run by the driver, see
-DESIGN.md): the parse/render round trip `parse (render file) = file` for `WFBlock` texts, and the
-commutation of the import map (`addLine`); both are exercised by the history stream, whose oracle
-compares the real file with `canonFile` for every order.
+`C05_merge_text` is the bridge from the TEXT of the file to the blocks: for a file whose header has no blank line
+and whose declaration blocks are well-formed (`BlockOK`: no blank line inside, no line break at the ends, the name is
+read back from the text), `merge(file, new)` is the import block followed by the blocks with the new one inserted in
+name order; `C05_merge_text_full` discharges the parsing of the header as well (`parse_render_line`: an import line is
+read back, for any path and any list of names). What is NOT proven in Lean (checked on every case of every run by the
+driver): the commutation of the import map (`addLine`) under permutation of the exports; it is exercised by the history
+stream, whose oracle compares the real file with `canonFile` for every order. The two open findings of C05 are exactly
+the two ways to violate `BlockOK`; proving `parse_render_line` exposed a third defect (a type called `from`, fixed in
+cc8d787).
 -/
 namespace TsRs
 open Text Merge Export
@@ -35,6 +42,55 @@ theorem C05_loop_is_sorted_insert (n d : Str) (ds : List (Str × Str)) (hn : ∀
         · exact absurd h hlt
         · exact h
       simp [hlt, h2, insertLoop_true]
+
+/-- **the text-level merge is sorted insertion into the blocks of the file** (any number of blocks, any texts) -/
+theorem C05_merge_text (hdrO hdrN : Str) (blocks : List (Str × Str)) (n d : Str) (parsed : List (Str × List Str))
+    (hO : hasNN hdrO = false ∧ endsNl hdrO = false) (hN : hasNN hdrN = false ∧ endsNl hdrN = false)
+    (hne : blocks ≠ []) (hb : ∀ b ∈ blocks, BlockOK b.1 b.2) (hnew : BlockOK n d) (hfresh : ∀ x ∈ blocks, x.1 ≠ n)
+    (himp : ((lines hdrO).drop 1 ++ (lines hdrN).drop 1).mapM parseImportLine = some parsed) :
+    merge (hdrO ++ '\n' :: '\n' :: declsText (blocks.map (·.2))) (hdrN ++ '\n' :: '\n' :: (d ++ ['\n']))
+      = .ok (renderImports (parsed.foldl addLine []) ++ renderDecls ((insertByName n d blocks).map (·.2))) := by
+  rw [merge_text hdrO hdrN blocks n d parsed hO hN hne hb hnew himp, C05_loop_is_sorted_insert n d blocks hfresh]
+
+theorem mapM_parse_lines : ∀ (imps : List (Str × List Str)),
+    (∀ x ∈ imps, PathOK x.1 ∧ x.2 ≠ [] ∧ ∀ t ∈ x.2, NameOK t) →
+    (imps.map fun x => renderLine x.1 x.2).mapM parseImportLine = some imps
+  | [], _ => by simp
+  | x :: xs, h => by
+    obtain ⟨h1, h2, h3⟩ := h x (by simp)
+    have ih := mapM_parse_lines xs (fun y hy => h y (by simp [hy]))
+    simp only [List.map_cons, List.mapM_cons, parse_render_line x.1 x.2 h1 h2 h3, ih, bind, Option.bind, pure]
+
+/-- **the whole text-level merge**, with nothing assumed about parsing: a file made of the notice line, import lines
+(one per specifier: any path not starting / ending with a quote, any non-empty list of names without `{`, `}`, `,`) and
+well-formed blocks, merged with a generated text of the same make, is the union of the import maps followed by the blocks
+with the new one inserted in name order. -/
+theorem C05_merge_text_full (note : Str) (impO impN : List (Str × List Str)) (blocks : List (Str × Str)) (n d : Str)
+    (hnote : LineOK note)
+    (hO : ∀ x ∈ impO, PathOK x.1 ∧ x.2 ≠ [] ∧ ∀ t ∈ x.2, NameOK t) (hN : ∀ x ∈ impN, PathOK x.1 ∧ x.2 ≠ [] ∧ ∀ t ∈ x.2, NameOK t)
+    (hlO : ∀ x ∈ impO, LineOK (renderLine x.1 x.2)) (hlN : ∀ x ∈ impN, LineOK (renderLine x.1 x.2))
+    (hne : blocks ≠ []) (hb : ∀ b ∈ blocks, BlockOK b.1 b.2) (hnew : BlockOK n d) (hfresh : ∀ x ∈ blocks, x.1 ≠ n) :
+    merge (header note (impO.map fun x => renderLine x.1 x.2) ++ '\n' :: '\n' :: declsText (blocks.map (·.2)))
+          (header note (impN.map fun x => renderLine x.1 x.2) ++ '\n' :: '\n' :: (d ++ ['\n']))
+      = .ok (renderImports ((impO ++ impN).foldl addLine []) ++ renderDecls ((insertByName n d blocks).map (·.2))) := by
+  have hlO' : ∀ l ∈ impO.map (fun x => renderLine x.1 x.2), LineOK l := by
+    intro l hl; obtain ⟨x, hx, rfl⟩ := List.mem_map.mp hl; exact hlO x hx
+  have hlN' : ∀ l ∈ impN.map (fun x => renderLine x.1 x.2), LineOK l := by
+    intro l hl; obtain ⟨x, hx, rfl⟩ := List.mem_map.mp hl; exact hlN x hx
+  have pO := header_props note _ hnote hlO'
+  have pN := header_props note _ hnote hlN'
+  refine C05_merge_text _ _ blocks n d (impO ++ impN) ⟨pO.1, pO.2.1⟩ ⟨pN.1, pN.2.1⟩ hne hb hnew hfresh ?_
+  rw [lines_header note _ hnote hlO', lines_header note _ hnote hlN']
+  simp only [List.drop_succ_cons, List.drop_zero]
+  rw [← List.map_append]
+  exact mapM_parse_lines (impO ++ impN) (by
+    intro x hx
+    rcases List.mem_append.mp hx with h | h
+    · exact hO x h
+    · exact hN x h)
+
+/-- … and the merged text has again the shape the theorem asks of its input (so it applies to every later merge) -/
+theorem C05_merged_shape (ds : List Str) : renderDecls ds = (ds.map fun d => ['\n'] ++ d ++ ['\n']).flatten := rfl
 
 /-- **order independence**: exporting the same set of (distinctly named) declarations in ANY two
 orders yields the same list of blocks — for every number of types and every text. -/
@@ -128,6 +184,14 @@ theorem C05_cex_blank_line :
 /-- `export type` inside a field doc: the name of the block is mis-read (`Zzz` instead of `B`) -/
 theorem C05_cex_name_misread :
     declName "export type B = { \n/**\n * like export type Zzz = 1\n */\na: number, };".toList = some "Zzz".toList := by
+  decide +kernel
+
+/-! ## non-vacuity of the text bridge: a real-looking file and a new declaration -/
+example : BlockOK "Alpha".toList "/**\n * doc\n */\nexport type Alpha = { a: number, };".toList := by
+  refine ⟨by decide +kernel, by decide +kernel, by decide +kernel, by decide +kernel, by decide +kernel⟩
+example : merge ("// note\nimport type { X } from \"./X\";".toList ++ '\n' :: '\n' :: declsText ["export type Alpha = X;".toList, "export type Gamma = null;".toList])
+    ("// note".toList ++ '\n' :: '\n' :: ("export type Beta = 1;".toList ++ ['\n']))
+    = .ok "import type { X } from \"./X\";\n\nexport type Alpha = X;\n\nexport type Beta = 1;\n\nexport type Gamma = null;\n".toList := by
   decide +kernel
 
 end TsRs
